@@ -105,7 +105,7 @@ func TestVerif_C01(t *testing.T) {
 	run.Assume("accepted span = AddSpan/AddSpanFromPeer returned nil; forwarded = snapshot taken at Transmission.EnqueueSpan")
 	run.Assume("kept-record retention is measured conservatively: a trace is exempt when ≥ KeptSizePerWorker other traces of its worker used the kept LRU after its decision")
 
-	n := run.N(240, 10000)
+	n := run.N(240, 3000)
 	steps := run.N(60, 150)
 	var exempt, evaluated int
 	run.Cases("lifecycle", n, func(i int, rng *verifkit.Rand) {
